@@ -107,7 +107,7 @@ def items():
 """),
         Fn(EX, "move_operand_below_comment", contract="""
     ensures skel(r) == skel(expression), begins_with_bracket_string(r) == begins_with_bracket_string(expression), //# C02.unary_operand_same
-        esafe(r) == esafe(expression), unop_open(*unop) ==> enl(r), //# C01.unary_operand_below_comment
+        esafe(r) == esafe(expression), unop_open(*unop) ==> enl(r), unop_id(*unop) == UN_MINUS && elc(r) ==> enl(r), //# C01.unary_operand_below_comment
 """),
         Fn(EX, "format_expression", contract="""
     requires wf(skel(*expression)),
